@@ -1,8 +1,9 @@
 (* Model/Monitor_C04.v — C04 "a deposed or fenced authority cannot acknowledge
    appends", evaluated on the implementation's observations alone.
 
-   Scope: one owner incarnation (one quorumLog between two restarts of a node):
-   the fencing state of quorum_log.go is volatile and per owner.  For every node
+   Two groups of clauses.  Owner-local (one owner incarnation = one quorumLog between two restarts of
+   a node; the fencing state of quorum_log.go is volatile and per owner), and one cluster-wide clause
+   further down (known finding C04-K1).  Owner-local: for every node
    the monitor remembers
      hi       the highest authority a successful Install returned on this owner,
      blocked  an Install answered ErrWriteFenced since the last successful Install
